@@ -8,8 +8,9 @@ import VelaVerif.Lemmas.TfliteWriter
 What the file says is a function of the graph description alone; every index written is in range and refers to the intended
 entity; quantisation fields are copied tensor by tensor; the reader attaches the full range of the element type.
 -/
+set_option linter.unusedSimpArgs false
 namespace VelaVerif.Props.C11Writer
-open VelaVerif.Tflite VelaVerif.Tflite.Writer VelaVerif.OpIndices
+open VelaVerif.Tflite VelaVerif.Tflite.Writer VelaVerif.OpIndices VelaVerif.Gen
 
 /-! ## (b) the file is a function of the graph description alone
 
@@ -47,5 +48,235 @@ theorem sort_by_type_only_witness :
     isort (fun a b : Code => decide (a.opId ≤ b.opId)) [foo, bar] ≠ isort (fun a b : Code => decide (a.opId ≤ b.opId)) [bar, foo] ∧
     sortCodes [foo, bar] = sortCodes [bar, foo] := by
   decide
+
+/-! ## (c) every index written is in range and refers to the intended entity; (d) quantisation fields -/
+
+/-- **written_tensors** ((c) and (d) for tensors). For every written subgraph, position `i` of the file's tensor table holds
+the record of the `i`-th tensor of the writer's tensor list (`sgAll`: the tensor set sorted by name): name, shape, element type,
+every quantisation field, variable flag are that tensor's own, and the buffer the record names exists and holds that tensor's
+constant data. -/
+theorem written_tensors (d : Desc) (enum : List Code) (m : ModelT) (h : writeWith d enum = .ok m) :
+    ∃ subs, (subgraphsToWrite d).mapM (prepSub d.tensors) = .ok subs ∧ m.subgraphs.length = subs.length ∧
+      ∀ (k : Nat) ps sg, subs[k]? = some ps → m.subgraphs[k]? = some sg →
+        sg.tensors.length = (sgAll d.tensors ps).length ∧
+        ∀ (i g : Nat), (sgAll d.tensors ps)[i]? = some g →
+          ∃ td tt b, d.tensors[g]? = some td ∧ sg.tensors[i]? = some tt ∧ m.buffers[tt.buffer]? = some b ∧
+            tt.name = some td.name ∧ tt.shape = some (Spec.writtenShape td) ∧ dtypeCode td.dtype = some tt.type ∧
+            tt.quant = td.quant.map quantT ∧ tt.isVariable = td.isVariable ∧ tt.extra = [] ∧ b.data = td.values := by
+  obtain ⟨subs, opcodes, st, metas, h1, _, _, _, hm, acc, hl⟩ := write_facts d enum m h
+  refine ⟨subs, h1, hl, ?_⟩
+  intro k ps sg hk hs
+  have hmap : (subs.map (sgAll d.tensors))[k]? = some (sgAll d.tensors ps) := by simp [hk]
+  obtain ⟨tl, tf⟩ := acc.tensors k _ sg hmap hs
+  refine ⟨tl, fun i g hig => ?_⟩
+  obtain ⟨td, tt, a1, a2, a3, _, a5⟩ := tf i g hig
+  obtain ⟨b1, b2, b3, b4, b5, _, b7⟩ := tensorT_ok td tt.buffer tt a3
+  refine ⟨td, tt, { data := td.values }, a1, a2, ?_, b1, b2, b3, b4, b5, b7, rfl⟩
+  rw [hm]
+  exact assemble_buffers_get d opcodes m.subgraphs st metas _ _ a5
+
+/-- **tensor_indices_bijective.** The tensor list of a written subgraph has no repetition and as many entries as the file's
+tensor table: "position in the table" and "tensor of the graph that is written" are in one-to-one correspondence; a tensor is
+written iff it is an original input or an operand of a written operator or of a Placeholder. -/
+theorem tensor_indices_bijective (d : Desc) (enum : List Code) (m : ModelT) (h : writeWith d enum = .ok m) :
+    ∃ subs, (subgraphsToWrite d).mapM (prepSub d.tensors) = .ok subs ∧
+      ∀ (k : Nat) ps sg, subs[k]? = some ps → m.subgraphs[k]? = some sg →
+        (sgAll d.tensors ps).Nodup ∧ sg.tensors.length = (sgAll d.tensors ps).length ∧
+        ∀ g, g ∈ sgAll d.tensors ps ↔
+          g ∈ ps.sg.originalInputs ∨ ∃ op ∈ sgOps ps, (op.ignored = false ∨ op.placeholder = true) ∧ some g ∈ op.operands := by
+  obtain ⟨subs, _, st, _, h1, _, _, _, _, acc, _⟩ := write_facts d enum m h
+  refine ⟨subs, h1, ?_⟩
+  intro k ps sg hk hs
+  have hmap : (subs.map (sgAll d.tensors))[k]? = some (sgAll d.tensors ps) := by simp [hk]
+  refine ⟨sgAll_nodup _ _, (acc.tensors k _ sg hmap hs).1, fun g => ?_⟩
+  rw [mem_sgAll]; unfold sgSet; rw [mem_tensorSet]
+
+/-- **written_operators** ((c) for operators). Operator `j` of a written subgraph is the `j`-th operator of the graph that is
+not a Const / Placeholder / SubgraphInput; the operator-code entry it points to exists and is the serialisation of a code with
+the operator's type and version (for third-party custom operators: of exactly its (custom code, version)); every operand
+index is −1 exactly where the graph has `None`, and otherwise the position, in the subgraph's tensor table, of that very
+tensor; results and intermediates likewise. -/
+theorem written_operators (d : Desc) (enum : List Code) (m : ModelT) (h : writeWith d enum = .ok m) :
+    ∃ subs, (subgraphsToWrite d).mapM (prepSub d.tensors) = .ok subs ∧
+      ∀ (k : Nat) ps sg, subs[k]? = some ps → m.subgraphs[k]? = some sg →
+        sg.operators.length = ((sgOps ps).filter (!·.ignored)).length ∧
+        ∀ (j : Nat) p o, ((sgOps ps).filter (!·.ignored))[j]? = some p → sg.operators[j]? = some o →
+          (∃ c oc, (sortCodes enum)[o.opcodeIndex]? = some c ∧ m.opcodes[o.opcodeIndex]? = some oc ∧ serialiseOpCode c = .ok oc ∧
+            c.opId = p.info.id ∧ c.version = p.version ∧ (p.info.name = "Custom" → c = p.code)) ∧
+          (∃ ins, o.inputs = some ins ∧ ins.length = p.inputs.length ∧
+            ∀ (q : Nat), (p.inputs[q]? = some none → ins[q]? = some (-1)) ∧
+              ∀ g, p.inputs[q]? = some (some g) → ∃ i : Nat, ins[q]? = some (i : Int) ∧ (sgAll d.tensors ps)[i]? = some g) ∧
+          (∃ outs, o.outputs = some outs ∧
+            List.Forall₂ (fun g (i : Int) => ∃ n : Nat, i = n ∧ (sgAll d.tensors ps)[n]? = some g) (p.outputs.filterMap id) outs) ∧
+          (∃ im, o.intermediates = some im ∧
+            List.Forall₂ (fun g (i : Int) => ∃ n : Nat, i = n ∧ (sgAll d.tensors ps)[n]? = some g) (p.intermediates.filterMap id) im) ∧
+          o.mutating = some [] ∧ o.extra = [] := by
+  obtain ⟨subs, opcodes, st, metas, h1, h2, h3, _, hm, _, hl⟩ := write_facts d enum m h
+  refine ⟨subs, h1, ?_⟩
+  intro k ps sg hk hs
+  have hloc := subgraphs_local d.tensors (sortCodes enum) subs st0 m.subgraphs st h3
+  have hk' : k < subs.length := (List.getElem?_eq_some_iff.mp hk).1
+  have hs' : k < m.subgraphs.length := (List.getElem?_eq_some_iff.mp hs).1
+  have hL := (List.forall₂_iff_get.mp hloc).2 k hk' hs'
+  have e1 : subs.get ⟨k, hk'⟩ = ps := by
+    have := (List.getElem?_eq_some_iff.mp hk).2; simpa using this
+  have e2 : m.subgraphs.get ⟨k, hs'⟩ = sg := by
+    have := (List.getElem?_eq_some_iff.mp hs).2; simpa using this
+  rw [e1, e2] at hL
+  obtain ⟨outs2, operators, _, hops, hoe, _, _, _, _⟩ := hL
+  obtain ⟨ol, of⟩ := mapM_ok _ _ _ hops
+  rw [hoe]
+  refine ⟨ol, ?_⟩
+  intro j p o hj ho
+  obtain ⟨o', ho', hser⟩ := of j p hj
+  rw [ho] at ho'
+  obtain rfl := Option.some.inj ho'
+  obtain ⟨s1, s2, s3, s4, s5, s6⟩ := serialiseOperator_ok _ _ _ _ hser
+  have hpm : p ∈ (sgOps ps).filter (!·.ignored) := List.mem_of_getElem? hj
+  refine ⟨?_, ?_, ?_, ?_, s5, s6⟩
+  · obtain ⟨c, c1, c2, c3, c4⟩ := opcodeIndex_ok _ _ _ s4
+    obtain ⟨_, cf⟩ := mapM_ok _ _ _ h2
+    obtain ⟨oc, oc1, oc2⟩ := cf _ c c1
+    refine ⟨c, oc, c1, ?_, oc2, c2, c3, c4⟩
+    rw [hm]; exact oc1
+  · refine ⟨_, s1, by simp, ?_⟩
+    intro q
+    constructor
+    · intro hq
+      simp [List.getElem?_map, hq, mapIdx]
+    · intro g hq
+      have hgm : g ∈ sgAll d.tensors ps := operand_mem d.tensors ps p hpm g (by
+        unfold POp.operands
+        exact List.mem_append_left _ (List.mem_append_left _ (List.mem_of_getElem? hq)))
+      obtain ⟨i, hi, hgi⟩ := indexIn_of_mem _ g hgm
+      exact ⟨i, by simp [List.getElem?_map, hq, mapIdx, hi], hgi⟩
+  · refine ⟨_, s2, filterMap_mapIdx _ _ ?_⟩
+    intro g hg
+    exact operand_mem d.tensors ps p hpm g (by
+      unfold POp.operands
+      exact List.mem_append_left _ (List.mem_append_right _ hg))
+  · refine ⟨_, s3, filterMap_mapIdx _ _ ?_⟩
+    intro g hg
+    exact operand_mem d.tensors ps p hpm g (by
+      unfold POp.operands
+      exact List.mem_append_right _ hg)
+
+/-- **written_interface.** Subgraph inputs: one entry per original input, in order, each the table position of that tensor.
+Outputs: the output list with the virtual outputs removed, expanded by the original positions; the entries whose tensor is in
+the table, in order, each the table position of that tensor. -/
+theorem written_interface (d : Desc) (enum : List Code) (m : ModelT) (h : writeWith d enum = .ok m) :
+    ∃ subs, (subgraphsToWrite d).mapM (prepSub d.tensors) = .ok subs ∧
+      ∀ (k : Nat) ps sg, subs[k]? = some ps → m.subgraphs[k]? = some sg →
+        (∃ ins, sg.inputs = some ins ∧
+          List.Forall₂ (fun g (i : Int) => ∃ n : Nat, i = n ∧ (sgAll d.tensors ps)[n]? = some g) ps.sg.originalInputs ins) ∧
+        (∃ outs2 outs, outputList ps.sg.originalOutputPositions (sgOuts ps) = .ok outs2 ∧ sg.outputs = some outs ∧
+          List.Forall₂ (fun g (i : Int) => ∃ n : Nat, i = n ∧ (sgAll d.tensors ps)[n]? = some g)
+            (outs2.filter (· ∈ sgAll d.tensors ps)) outs) ∧
+        sg.name = some ps.sg.name ∧ sg.extra = [] := by
+  obtain ⟨subs, opcodes, st, metas, h1, h2, h3, _, hm, _, hl⟩ := write_facts d enum m h
+  refine ⟨subs, h1, ?_⟩
+  intro k ps sg hk hs
+  have hloc := subgraphs_local d.tensors (sortCodes enum) subs st0 m.subgraphs st h3
+  have hk' : k < subs.length := (List.getElem?_eq_some_iff.mp hk).1
+  have hs' : k < m.subgraphs.length := (List.getElem?_eq_some_iff.mp hs).1
+  have hL := (List.forall₂_iff_get.mp hloc).2 k hk' hs'
+  have e1 : subs.get ⟨k, hk'⟩ = ps := by
+    have := (List.getElem?_eq_some_iff.mp hk).2; simpa using this
+  have e2 : m.subgraphs.get ⟨k, hs'⟩ = sg := by
+    have := (List.getElem?_eq_some_iff.mp hs).2; simpa using this
+  rw [e1, e2] at hL
+  obtain ⟨outs2, operators, ho, _, _, hi, hou, hn, he⟩ := hL
+  refine ⟨⟨_, hi, idxList_spec _ _ ?_⟩, ⟨outs2, _, ho, hou, idxList_filter _ _⟩, hn, he⟩
+  intro g hg
+  rw [mem_sgAll]
+  unfold sgSet
+  rw [mem_tensorSet]
+  exact Or.inl hg
+
+/-- **buffers_consistent.** Every buffer index written (by a tensor, by a metadata entry) is in range; as soon as one
+subgraph is written, buffer 0 exists and carries no data; no buffer other than 0 is used twice — not by two tensors (of the same
+or of different subgraphs), not by two metadata entries, not by a tensor and a metadata entry. Together with
+`written_tensors` (the buffer of a tensor holds that tensor's data): no two constants share a buffer. -/
+theorem buffers_consistent (d : Desc) (enum : List Code) (m : ModelT) (h : writeWith d enum = .ok m) :
+    (∀ sg ∈ m.subgraphs, ∀ tt ∈ sg.tensors, tt.buffer < m.buffers.length) ∧
+    (∀ md ∈ m.metadata, md.buffer < m.buffers.length) ∧
+    (m.subgraphs ≠ [] → ∃ b, m.buffers[0]? = some b ∧ b.data = none) ∧
+    ((((m.subgraphs.flatMap (·.tensors)).map (·.buffer)).filter (· ≠ 0)) ++ m.metadata.map (·.buffer)).Nodup := by
+  obtain ⟨subs, opcodes, st, metas, _, _, _, _, hm, acc, _⟩ := write_facts d enum m h
+  have hbl : m.buffers.length = st.buffers.length + metas.length := by rw [hm]; simp [assemble]
+  have hmd : m.metadata.map (·.buffer) = (List.range metas.length).map (st.buffers.length + ·) := by
+    rw [hm]
+    simp only [assemble, List.map_map]
+    apply List.ext_getElem?
+    intro i
+    simp only [List.getElem?_map, List.getElem?_zipIdx, List.getElem?_range, Function.comp]
+    by_cases hi : i < metas.length
+    · simp [hi, List.getElem?_eq_getElem hi]
+    · simp [hi, List.getElem?_eq_none (Nat.le_of_not_lt hi)]
+  have hne : m.subgraphs ≠ [] → st.bufIdx ≤ st.buffers.length ∧ st.buffers[0]? = some none := by
+    intro hn
+    have h0 := acc.nonempty hn
+    rcases acc.inv.bufs with he | ⟨hle, _⟩
+    · rw [he] at h0; simp at h0
+    · exact ⟨hle, h0⟩
+  have hlt : ∀ sg ∈ m.subgraphs, ∀ tt ∈ sg.tensors, tt.buffer < st.buffers.length := by
+    intro sg hsg tt htt
+    have := acc.below sg hsg tt htt
+    have := (hne (List.ne_nil_of_mem hsg)).1
+    omega
+  refine ⟨fun sg hsg tt htt => by have := hlt sg hsg tt htt; omega, ?_, ?_, ?_⟩
+  · intro md hmdm
+    have : md.buffer ∈ m.metadata.map (·.buffer) := List.mem_map.mpr ⟨md, hmdm, rfl⟩
+    rw [hmd] at this
+    obtain ⟨i, hi, he⟩ := List.mem_map.mp this
+    have := List.mem_range.mp hi
+    omega
+  · intro hn
+    refine ⟨{ data := none }, ?_, rfl⟩
+    rw [hm]
+    exact assemble_buffers_get d opcodes m.subgraphs st metas 0 none (hne hn).2
+  · rw [hmd]
+    refine List.Nodup.append acc.nodup ?_ ?_
+    · exact (List.nodup_range).map (fun a b hab => by simpa using hab)
+    · intro x hx1 hx2
+      obtain ⟨hx1m, _⟩ := List.mem_filter.mp hx1
+      obtain ⟨t1, ht1, rfl⟩ := List.mem_map.mp hx1m
+      obtain ⟨sg1, hsg1, ht1'⟩ := List.mem_flatMap.mp ht1
+      have := hlt sg1 hsg1 t1 ht1'
+      obtain ⟨i, _, he⟩ := List.mem_map.mp hx2
+      omega
+
+/-! ## (e) the reader's representable ranges -/
+
+/-- table fact, re-checked against the regenerated `datatype_map` on every run: for every element type the reader knows,
+the range it attaches is the full range of that type when it is one of uint8 / int8 / int16 / int32 / int64 and nothing
+otherwise; in particular the width the reader uses (`dtype.bits`) is the width of the type -/
+theorem reader_ranges_table :
+    WriterTbl.dtypeMap.all (fun row => Reader.rangeOf row.2.1 row.2.2.1 == (Spec.intType row.2.1).map (fun sb => Spec.fullRange sb.1 sb.2)) = true := by
+  decide +kernel
+
+/-- **reader_ranges.** Whatever the file: a tensor the reader builds carries `quant_min` / `quant_max` exactly when it keeps
+a quantisation and its element type is uint8 / int8 / int16 / int32 / int64, and then they are the full range of that type
+(two's complement for the signed types). -/
+theorem reader_ranges (bufs : List (Option Data)) (t : TensorT) (td : TensorD) (h : Reader.parseTensor bufs t = .ok td) :
+    td.range = if td.quant.isSome then (Spec.intType td.dtype).map (fun sb => Spec.fullRange sb.1 sb.2) else none := by
+  unfold Reader.parseTensor at h
+  obtain ⟨row, hrow, h⟩ := Writer.bind_ok h
+  obtain ⟨buf, hbuf, h⟩ := Writer.bind_ok h
+  obtain ⟨_, _, h⟩ := Writer.bind_ok h
+  simp only [pure, Except.pure, Except.ok.injEq] at h
+  subst h
+  dsimp only
+  have hmem : row ∈ WriterTbl.dtypeMap := by
+    unfold Reader.dtypeRow at hrow
+    cases hf : WriterTbl.dtypeMap.find? (·.1 == t.type) with
+    | none => simp [hf, throw, throwThe, MonadExceptOf.throw] at hrow
+    | some r =>
+      simp [hf, pure, Except.pure] at hrow
+      subst hrow
+      exact List.mem_of_find?_eq_some hf
+  have := List.all_eq_true.mp reader_ranges_table row hmem
+  simp only [beq_iff_eq] at this
+  rw [this]
 
 end VelaVerif.Props.C11Writer
